@@ -10,6 +10,11 @@ CLAIMED = {
    text="Every history over the operation alphabet with at most 4 live jobs is executed on the real JobList (quick: depth 10; thorough: until no new table appears, i.e. the complete reachable state space for that alphabet); after every transition the property's invariants, the documented result of the operation and %%/%+/%-/%n resolution are asserted through the public API.",
    note="Trusted: the invariant monitor itself (written from the property text and the doc comments of job.rs); pids of live jobs are never re-inserted; `expect()` is not exercised; $! and the shell-level plumbing (wait %n) are covered by C13.",
    design="5/C12"),
+ "C15": dict(level="exploration", engine="execmon",
+   technique="online poll-log monitor against a reference FIFO queue with duplicate suppression; Miri (UB/leak interpreter) on a slice of the same workload",
+   text="Exhaustive ordered task systems (2 tasks x <=3 actions over 8 actions; 3 tasks x <=2 actions; thorough adds 2x<=4, 3x<=3, 4x<=2) plus random larger systems run on the real yash_executor::Executor; each step() is compared with the reference queue (task polled, wake_count, completion), instrumented futures flag poll-after-ready/re-entrancy, stalls are checked for genuinely waiting tasks, results delivered exactly once. A slice (quick 768, thorough 6144 systems) is interpreted by Miri to check the hand-written RawWaker vtable.",
+   note="Trusted: the reference queue model (15 lines), the instrumented futures; Miri covers only the slice; single-threaded use as the crate documents.",
+   design="5/C15, 6"),
 }
 
 PENDING_REASON = "monitor not implemented yet (work in progress; see DESIGN.md section 5)"
